@@ -529,6 +529,11 @@ func (fr *Frame) execInstr(in ssa.Instruction) {
 		n := fr.termOf(fr.val(in.Len))
 		c := fr.termOf(fr.val(in.Cap))
 		fr.panicAt(in.Pos(), "makeslice-len", Or(Lt(n, IntLit(0)), Lt(c, n)))
+		if sz := elemSizeKnownZero(st.Elem()); !sz {
+			// runtime.makeslice panics ("cap out of range") when cap*elemsize exceeds the address space; with A-MEM's
+			// bound on every existing slice (2^62 elements) the necessary condition checked here is cap <= 2^62
+			fr.panicAt(in.Pos(), "makeslice-cap-out-of-range", Lt(IntLit(4611686018427387904), c))
+		}
 		name := elemsComp(st.Elem())
 		arr := fr.R.Heap.Get(fr.st, name, ArraySort(SInt, ArraySort(SInt, es)))
 		zero := T(fmt.Sprintf("((as const %s) %s)", ArraySort(SInt, es), tm.Zero(st.Elem()).S), ArraySort(SInt, es))
@@ -1156,4 +1161,20 @@ func (fr *Frame) sumSplit(row, lo, m, hi Term) {
 
 func (fr *Frame) sumSingle(row, i Term) {
 	fr.R.Sc.Assume(Eq(app(SInt, "sumlen", row, i, Add(i, IntLit(1))), app(SInt, "s-len", Select(row, i, SSlice))))
+}
+
+// elemSizeKnownZero: the element type certainly occupies no memory (struct{} and arrays/structs of such).
+func elemSizeKnownZero(t types.Type) bool {
+	switch u := types.Unalias(t).Underlying().(type) {
+	case *types.Struct:
+		for i := 0; i < u.NumFields(); i++ {
+			if !elemSizeKnownZero(u.Field(i).Type()) {
+				return false
+			}
+		}
+		return true
+	case *types.Array:
+		return u.Len() == 0 || elemSizeKnownZero(u.Elem())
+	}
+	return false
 }
